@@ -63,6 +63,8 @@ type C16Spec struct {
 	Formats  []string `json:"formats,omitempty"` // classes: csv html json markdown texttable auto; empty = all
 	Full     bool     `json:"full,omitempty"`    // every table in every format; otherwise the six core renders plus a rotating share of decorations and auto styles
 	Repeat   int      `json:"repeat,omitempty"`  // run the child up to this many times until a failure shows (shrinking)
+	// ColdFirst: the concurrent phase runs before anything has been rendered in the process
+	ColdFirst bool `json:"cold_first,omitempty"`
 }
 
 type c16Row struct {
@@ -343,58 +345,74 @@ func c16Worker() {
 	formats := c16Formats(spec, names, styles)
 	res := C16Result{Formats: formats, Outcomes: map[string]int{}, Procs: runtime.GOMAXPROCS(0)}
 
-	// solo runs, twice
 	progs := make([][]TableSpec, spec.G)
+	for g := 0; g < spec.G; g++ {
+		progs[g] = c16Programme(spec, g)
+	}
 	seq1 := make([][]string, spec.G)
 	labels := make([][]string, spec.G)
 	res.Rows = make([]c16Row, spec.G)
 	rendered := map[string]bool{}
-	for g := 0; g < spec.G; g++ {
-		progs[g] = c16Programme(spec, g)
-		seq1[g], labels[g] = c16RunProgramme(spec, g, progs[g], formats)
-		seq2, _ := c16RunProgramme(spec, g, progs[g], formats)
-		res.Rows[g].Seq1 = c16Digest(seq1[g], spec.Iters)
-		res.Rows[g].Seq2 = c16Digest(seq2, spec.Iters)
-		res.Renders += len(seq1[g]) * spec.Iters
-		for i := range seq1[g] {
-			res.Outcomes[seq1[g][i][:strings.IndexByte(seq1[g][i], 0)]]++
-			rendered[labels[g][i][strings.Index(labels[g][i], "format ")+7:]] = true
-			if seq1[g][i] != at(seq2, i) && len(res.SeqDiffer) < 5 {
-				res.SeqDiffer = append(res.SeqDiffer, fmt.Sprintf("goroutine %d %s: first %q second %q",
-					g, labels[g][i], clip(seq1[g][i], 300), clip(at(seq2, i), 300)))
+	// solo runs, twice
+	soloPhase := func() {
+		for g := 0; g < spec.G; g++ {
+			seq1[g], labels[g] = c16RunProgramme(spec, g, progs[g], formats)
+			seq2, _ := c16RunProgramme(spec, g, progs[g], formats)
+			res.Rows[g].Seq1 = c16Digest(seq1[g], spec.Iters)
+			res.Rows[g].Seq2 = c16Digest(seq2, spec.Iters)
+			res.Renders += len(seq1[g]) * spec.Iters
+			for i := range seq1[g] {
+				res.Outcomes[seq1[g][i][:strings.IndexByte(seq1[g][i], 0)]]++
+				rendered[labels[g][i][strings.Index(labels[g][i], "format ")+7:]] = true
+				if seq1[g][i] != at(seq2, i) && len(res.SeqDiffer) < 5 {
+					res.SeqDiffer = append(res.SeqDiffer, fmt.Sprintf("goroutine %d %s: first %q second %q",
+						g, labels[g][i], clip(seq1[g][i], 300), clip(at(seq2, i), 300)))
+				}
 			}
 		}
+		res.FormatsUsed = len(rendered)
 	}
-	res.FormatsUsed = len(rendered)
 
-	// concurrent run
+	// concurrent run; the outputs are kept and compared once both phases are done
 	var wg, rwg sync.WaitGroup
 	start := make(chan struct{})
 	var done int32
-	var mu sync.Mutex // guards res.Mismatches / res.NMismatch (harness state, not library state)
+	conc := make([][][]string, spec.G)
 	for g := 0; g < spec.G; g++ {
 		wg.Add(1)
 		go func(g int) {
 			defer wg.Done()
 			<-start
-			var all []string
 			for it := 0; it < spec.Iters; it++ {
 				outs, _ := c16RunProgramme(spec, g, progs[g], formats)
+				conc[g] = append(conc[g], outs)
+			}
+		}(g)
+	}
+	compare := func() {
+		for g := 0; g < spec.G; g++ {
+			var all []string
+			for it, outs := range conc[g] {
 				for i := range seq1[g] {
 					if at(outs, i) != seq1[g][i] {
-						mu.Lock()
 						res.NMismatch++
 						if len(res.Mismatches) < 6 {
 							res.Mismatches = append(res.Mismatches, fmt.Sprintf("goroutine %d iteration %d %s: alone %q concurrently %q",
 								g, it, labels[g][i], clip(seq1[g][i], 400), clip(at(outs, i), 400)))
 						}
-						mu.Unlock()
 					}
 				}
 				all = append(all, outs...)
 			}
 			res.Rows[g].Conc = c16Digest(all, 1)
-		}(g)
+		}
+	}
+	// Half of the cases run the concurrent phase FIRST, in a process that has
+	// rendered nothing yet: a lazily filled package-level cache is then written
+	// concurrently (the solo phase would otherwise have warmed it up and turned
+	// every concurrent access into a read).
+	if !spec.ColdFirst {
+		soloPhase()
 	}
 	for k := 0; k < spec.Readers; k++ {
 		rwg.Add(1)
@@ -430,6 +448,10 @@ func c16Worker() {
 	wg.Wait()
 	atomic.StoreInt32(&done, 1)
 	rwg.Wait()
+	if spec.ColdFirst {
+		soloPhase()
+	}
+	compare()
 	if strings.Join(decoration.RegisteredDecorationNames(), "\x00") != strings.Join(names, "\x00") {
 		res.RegMismatch++
 	}
@@ -721,6 +743,7 @@ func init() {
 						s.Tables--
 					}
 				}
+				s.ColdFirst = i%2 == 1
 				out = append(out, mustJSON(s))
 			}
 			// the inventory case comes last: it has been running in the background meanwhile
